@@ -4,6 +4,7 @@ use vstd::prelude::*;
 verus! {
 
 //@include shim/std_gaps.rs
+broadcast use vp_std::group_std_gaps;
 //@include shim/intmap.rs
 //@include shim/either.rs
 //@include shim/common_types.rs
@@ -274,7 +275,7 @@ impl DynamicBitfield {
         0 <= i <= u64::MAX && self.pages@.contains_key(p) && self.pages@[p].bit(i % 32768)
     }
     pub open spec fn wf(&self) -> bool {
-        &&& forall|p: u64| self.pages@.contains_key(p) ==> p <= self.biggest_page_index
+        &&& forall|p: u64| self.pages@.contains_key(p) ==> p <= self.biggest_page_index && p <= 0x1_ffff_ffff_ffff
         &&& forall|p: u64| #![trigger self.pages@[p]] self.pages@.contains_key(p) && self.pages@[p].dirty ==> self.unflushed@.contains(p)
         &&& forall|j: int| 0 <= j < self.unflushed@.len() ==> self.pages@.contains_key(#[trigger] self.unflushed@[j])
     }
@@ -385,6 +386,151 @@ impl DynamicBitfield {
                 }
             }
         }
+    @*/
+}
+
+impl DynamicBitfield {
+    /*@ fn src/bitfield/dynamic.rs DynamicBitfield::set ; refcell
+    tags: C08 C01
+    result: r
+    requires:
+        old(self).wf()
+    ensures:
+        final(self).wf(),
+        forall|k: int| #![trigger final(self).bit(k)] final(self).bit(k) == (if k == index { value } else { old(self).bit(k) }),
+        r == (old(self).bit(index as int) != value),
+        r ==> final(self).unflushed@.contains((index / 32768) as u64),
+        forall|x: u64| old(self).unflushed@.contains(x) ==> final(self).unflushed@.contains(x)
+    after `let j = index &`:
+        assert(index & 32767 == index % 32768) by (bit_vector);
+        let ghost s0 = *self;
+    before `let mut p = self.pages.get_mut(i)`:
+        let ghost s1 = *self;
+        assert(forall|k: int| 0 <= k < 32768 ==> !s0.pages@.contains_key(i) ==> !s1.pages@[i].bit(k));
+    last:
+        proof {
+            lemma_push_contains(s1.unflushed@, i);
+            assert(self.unflushed@ == s1.unflushed@ || self.unflushed@ == s1.unflushed@.push(i));
+            let pg = self.pages@[i];
+            assert(self.pages@ == s1.pages@.insert(i, pg));
+            assert forall|k: int| #![trigger self.bit(k)] self.bit(k) == (if k == index { value } else { old(self).bit(k) }) by {
+                if 0 <= k <= u64::MAX {
+                    if k / 32768 == i as int {
+                        let kk = k % 32768;
+                        assert(pg.bit(kk) == pmid.bit(kk));
+                    } else {
+                        assert((k / 32768) as u64 != i);
+                    }
+                }
+            }
+        }
+    after `let changed: bool = p.set(`:
+        let ghost pmid = *p;
+    @*/
+
+    /*@ fn src/bitfield/dynamic.rs DynamicBitfield::flush ; refcell
+    tags: C08 C01 C02 C06
+    result: r
+    requires:
+        old(self).wf()
+    ensures:
+        final(self).wf(),
+        final(self).unflushed@.len() == 0,
+        forall|k: int| #![trigger final(self).bit(k)] final(self).bit(k) == old(self).bit(k),
+        forall|p: u64| final(self).pages@.contains_key(p) ==> !(#[trigger] final(self).pages@[p]).dirty,
+        r@.len() == old(self).unflushed@.len(),
+        forall|n: int| 0 <= n < r@.len() ==> is_page_write(#[trigger] r@[n], old(self).unflushed@[n], old(self).pages@[old(self).unflushed@[n]])
+    sub `for unflushed_id in &self\.unflushed \{` => `for unflushed_id in it: self.unflushed.iter() {`
+    loop 1:
+        invariant
+            infos_to_flush@.len() == it.index@,
+            self.unflushed@ == old(self).unflushed@,
+            self.biggest_page_index == old(self).biggest_page_index,
+            old(self).wf(),
+            self.pages@.dom() == old(self).pages@.dom(),
+            forall|p: u64| self.pages@.contains_key(p) ==> (#[trigger] self.pages@[p]).bitfield@ == old(self).pages@[p].bitfield@,
+            forall|p: u64| self.pages@.contains_key(p) && (#[trigger] self.pages@[p]).dirty ==> old(self).pages@[p].dirty,
+            forall|m: int| 0 <= m < it.index@ ==> !(#[trigger] self.pages@[old(self).unflushed@[m]]).dirty,
+            forall|m: int| 0 <= m < it.index@ ==> is_page_write(#[trigger] infos_to_flush@[m], old(self).unflushed@[m], old(self).pages@[old(self).unflushed@[m]])
+    before `let mut p = self.pages.get_mut(*unflushed_id)`:
+        let ghost s1 = *self;
+        let ghost id = *unflushed_id;
+        let ghost n = it.index@;
+        assert(id == old(self).unflushed@[n as int]);
+        assert(s1.pages@.contains_key(id));
+        let ghost infos0 = infos_to_flush@;
+    after `let data = p.to_bytes();`:
+        assert(id <= 0x1_ffff_ffff_ffff);
+        assert(data@.len() == 4096);
+        assert(id * 4096 <= 0x1_ffff_ffff_ffff * 4096) by (nonlinear_arith) requires id <= 0x1_ffff_ffff_ffff;
+    after `p.dirty = false;`:
+        proof {
+            let pg = self.pages@[id];
+            assert(self.pages@ == s1.pages@.insert(id, pg));
+            assert(pg.bitfield@ == s1.pages@[id].bitfield@);
+            assert(forall|k: int| 0 <= k < 32768 ==> pg.bit(k) == old(self).pages@[id].bit(k));
+            assert(infos_to_flush@ == infos0.push(infos_to_flush@[n as int]));
+            assert(forall|m: int| 0 <= m < n ==> infos_to_flush@[m] == infos0[m]);
+        }
+    last:
+        proof {
+            assert forall|p: u64| self.pages@.contains_key(p) implies !(#[trigger] self.pages@[p]).dirty by {
+                if self.pages@[p].dirty {
+                    assert(old(self).pages@[p].dirty);
+                    assert(old(self).unflushed@.contains(p));
+                    let m = choose|m: int| 0 <= m < old(self).unflushed@.len() && old(self).unflushed@[m] == p;
+                    assert(!self.pages@[old(self).unflushed@[m]].dirty);
+                }
+            }
+        }
+    @*/
+}
+
+// one flushed page: Write(Bitfield, 4096 * page_id, 4096 bytes in the JS layout)
+pub open spec fn is_page_write(info: StoreInfo, id: u64, page: FixedBitfield) -> bool {
+    &&& info.store == Store::Bitfield
+    &&& info.info_type == StoreInfoType::Content
+    &&& !info.miss
+    &&& info.index == id * 4096
+    &&& info.data is Some
+    &&& info.data->Some_0@.len() == 4096
+    &&& forall|k: int| 0 <= k < 32768 ==> #[trigger] bytes_bit(info.data->Some_0@, k) == page.bit(k)
+}
+
+// bit i of the bitfield *file*: pages of 4096 bytes, whole little-endian 32-bit words only
+pub open spec fn file_bit(data: Seq<u8>, i: int) -> bool {
+    0 <= i && 4 * (i / 32) + 4 <= data.len() && bytes_bit(data, i)
+}
+
+impl DynamicBitfield {
+    /*@ fn src/bitfield/dynamic.rs DynamicBitfield::open ; refcell
+    tags: C08 C01 C06
+    result: r
+    requires:
+        info is Some ==> (info->Some_0.info_type == StoreInfoType::Size ==> info->Some_0.length is Some),
+        info is Some ==> (info->Some_0.info_type == StoreInfoType::Content ==> info->Some_0.data is Some && info->Some_0.data->Some_0@.len() <= 0x1_0000_0000_0000)
+    ensures:
+        info is None ==> r is Left && r->Left_0.store == Store::Bitfield && r->Left_0.info_type == StoreInfoType::Size && r->Left_0.index == 0,
+        info is Some && info->Some_0.info_type == StoreInfoType::Size ==> r is Left && r->Left_0.store == Store::Bitfield
+            && r->Left_0.info_type == StoreInfoType::Content && r->Left_0.index == 0
+            && r->Left_0.length == Some((info->Some_0.length->Some_0 - info->Some_0.length->Some_0 % 4) as u64),
+        info is Some && info->Some_0.info_type == StoreInfoType::Content ==> r is Right && r->Right_0.wf()
+            && r->Right_0.unflushed@.len() == 0
+            && forall|k: int| #![trigger r->Right_0.bit(k)] r->Right_0.bit(k) == file_bit(info->Some_0.data->Some_0@, k)
+    before `let length = bitfield_store_length -`:
+        assert(bitfield_store_length & 3 == bitfield_store_length % 4) by (bit_vector);
+        assert(bitfield_store_length & 3 <= bitfield_store_length) by (bit_vector);
+    loop 1:
+        invariant
+            data_index % 4096 == 0,
+            data@.len() <= 0x1_0000_0000_0000,
+            data_index <= data@.len() + 4096,
+            forall|q: u64| #[trigger] pages@.contains_key(q) <==> (q as int) * 4096 < data_index,
+            forall|q: u64| pages@.contains_key(q) ==> q <= biggest_page_index,
+            forall|q: u64| pages@.contains_key(q) ==> !(#[trigger] pages@[q]).dirty,
+            forall|q: u64, kk: int| pages@.contains_key(q) && 0 <= kk < 32768 ==> #[trigger] pages@[q].bit(kk)
+                == file_bit(data@, q as int * 32768 + kk)
+        decreases data@.len() + 4096 - data_index
     @*/
 }
 
